@@ -13,7 +13,7 @@ from fractions import Fraction as Fr
 import torch
 
 from ..core import History, Inconclusive, Stats, Violation, bit_equal, thash
-from ..gen import STOCK_KINDS, gen_clauses, gen_primary
+from ..gen import gen_price_scale, STOCK_KINDS, gen_clauses, gen_primary
 from ..world import DT, World, abstract_state, make_clause
 
 ID = "C12"
@@ -30,7 +30,7 @@ ASSUMPTIONS = ["payoff value tolerance 4*eps*(|S|+|K|) (one rounded subtraction 
                "conditioning of the log differences", "a comparison within 2 ulp of a strike that is not representable in the "
                "working dtype is counted as ambiguous_skipped, not judged",
                "the functional:* operations are plain value generation and are labelled so"]
-PROBES = ["clause_raised_inside_payoff", "dt_changed_on_live_objects", "start_changed_on_live_object", "call_flipped_on_live_objects", "tie_terminal", "tie_extreme", "pinned", "clause_chain2", "T1", "T2", "forward_start_nonzero", "variance_swap",
+PROBES = ["price_scale_not_one", "clause_raised_inside_payoff", "dt_changed_on_live_objects", "start_changed_on_live_object", "call_flipped_on_live_objects", "tie_terminal", "tie_extreme", "pinned", "clause_chain2", "T1", "T2", "forward_start_nonzero", "variance_swap",
           "relations", "after_cast", "after_resim", "clause_added_midway", "put_uses_min", "functional", "strike_changed_on_live_objects", "maturity_not_multiple_of_dt"]
 DYADIC = [0.5, 0.75, 1.0, 1.0, 1.03125, 1.25]
 
@@ -135,7 +135,7 @@ def generate(rng):
                                                                "european_binary_payoff", "european_forward_start_payoff", "realized_variance"]),
                         "call": rng.chance(0.5), "strike": rng.choice(DYADIC), "n": rng.randint(1, 4), "t": rng.randint(1, 6),
                         "seed": rng.seed31(), "dtype": rng.choice(["float32", "float64"]), "batch": rng.chance(0.3)})
-    return {"profile": "c12", "env": {"default_dtype": "float32"}, "world": world, "ops": ops}
+    return {"profile": "c12", "env": {"default_dtype": "float32"}, "world": world, "ops": ops, "init": gen_price_scale(rng, prim["kind"])}
 
 
 # ----------------------------------------------------------------------------- reference
@@ -264,6 +264,9 @@ def _apply_pin(world, op, stats):
 
 
 def _execute(program, stats, hist):
+    INIT = tuple(program["init"]) if program.get("init") else None
+    if INIT is not None:
+        stats.probe("price_scale_not_one")
     torch.set_default_dtype(DT[program["env"].get("default_dtype", "float32")])
     try:
         world = World(program["world"], record_models=False)
@@ -287,7 +290,7 @@ def _execute(program, stats, hist):
             torch.manual_seed(op["torch_seed"])
             try:
                 d = world.derivatives[op["target"]]
-                d.simulate(n_paths=op["n_paths"])
+                d.simulate(n_paths=op["n_paths"], init_state=INIT)
             except Exception as e:
                 raise Inconclusive("simulate raised %r" % (e,))
             nsim += 1
@@ -309,7 +312,7 @@ def _execute(program, stats, hist):
             torch.manual_seed(op["torch_seed"])
             try:
                 d = world.derivatives[op["target"]]
-                d.simulate(n_paths=op["n_paths"])
+                d.simulate(n_paths=op["n_paths"], init_state=INIT)
             except Exception as e:
                 raise Inconclusive("simulate raised %r" % (e,))
             nsim += 1
